@@ -188,10 +188,11 @@ func (r *qLogReader) seekRecord(ctx context.Context, olderThan time.Time) (err e
 	}
 
 	if ts := readQLogTimestamp(ctx, r.logger, line); ts != 0 && ts < olderThanNano {
-		// olderThan is newer than all records in the files, for example when
-		// it is the time of a record from the memory buffer, so seekTS has
-		// moved to the start, and the record just read is not the one to skip.
-		return r.SeekStart()
+		// olderThan is newer than all records in the file, for example when it
+		// is the time of a record from the memory buffer, so seekTS has moved
+		// to the start of the file, and the record just read is not the one to
+		// skip.
+		return r.seekFileStart(r.currentFile)
 	}
 
 	return nil
